@@ -11,10 +11,10 @@ Definition key_final (s : kst) : bool * bool * bool :=
   (nonempty (vis s), dmem (vis s) kidK, ks_pub s).
 
 (* keys imported from a JWK dict have _dict_value filled by __init__ *)
-Definition start_world (im : imm) (pre : list bool) (sets : list (list nat)) : world :=
+Definition start_world (im : imm) (pre : list bool) (sets : list (list nat)) (regs : list creg) : world :=
   {| w_keys := map (fun kb : kimm * bool => {| ks_objs := [if snd kb then ki_view (fst kb) else []]; ks_ptr := 0; ks_pub := false |})
                    (combine im pre);
-     w_sets := sets; w_rng := 0; w_static := static0 |}.
+     w_sets := sets; w_rng := 0; w_static := with_regs static0 regs |}.
 
 (* "0110" -> [0;1;1;0] : one thread index per step *)
 Fixpoint digits (s : string) : list nat :=
@@ -26,11 +26,11 @@ Fixpoint digits (s : string) : list nat :=
 Inductive c20case :=
 (* a schedule: one thread index per line-step; expected label of every step,
    expected result of every thread, expected final state of every key *)
-| CSched (fixed : bool) (im : imm) (pre : list bool) (sets : list (list nat)) (picks : list nat)
+| CSched (fixed : bool) (im : imm) (pre : list bool) (sets : list (list nat)) (regs : list creg) (picks : list nat)
          (setup : list call) (calls : list call) (sched : string)
          (labels : string) (results : list (res pv)) (finals : list (bool * bool * bool)) (draws : N)
 (* a sequential history on one world: the calls run one after another *)
-| CSeq (fixed : bool) (im : imm) (pre : list bool) (sets : list (list nat)) (picks : list nat)
+| CSeq (fixed : bool) (im : imm) (pre : list bool) (sets : list (list nat)) (regs : list creg) (picks : list nat)
        (calls : list call) (results : list (res pv)) (finals : list (bool * bool * bool)) (draws : N).
 
 Definition b3_eqb (a b : bool * bool * bool) : bool :=
@@ -59,24 +59,24 @@ Fixpoint list_eqb2 {A B} (f : A -> B -> bool) (a : list A) (b : list B) : bool :
 
 Definition c20_out (c : c20case) : list string * list (option (res pv)) * list (bool * bool * bool) * N :=
   match c with
-  | CSched fx im pre sets picks setup calls sched _ _ _ _ =>
+  | CSched fx im pre sets regs picks setup calls sched _ _ _ _ =>
       let ps := map (compile fx im (pick_of picks)) calls in
-      let '(w0, _) := seq_all im (start_world im pre sets) (map (compile fx im (pick_of picks)) setup) in
+      let '(w0, _) := seq_all im (start_world im pre sets regs) (map (compile fx im (pick_of picks)) setup) in
       let '(w, ts, tr) := run_sched im (digits sched) w0 ps in
       (map ev_lbl tr, map result_of ts, map key_final (w_keys w), w_rng w)
-  | CSeq fx im pre sets picks calls _ _ _ =>
+  | CSeq fx im pre sets regs picks calls _ _ _ =>
       let ps := map (compile fx im (pick_of picks)) calls in
-      let '(w, rs) := seq_all im (start_world im pre sets) ps in
+      let '(w, rs) := seq_all im (start_world im pre sets regs) ps in
       ([], rs, map key_final (w_keys w), w_rng w)
   end.
 
 Definition c20_check (c : c20case) : bool :=
   let '(lbls, rs, fin, dr) := c20_out c in
   match c with
-  | CSched _ _ _ _ _ _ _ _ labels results finals draws =>
+  | CSched _ _ _ _ _ _ _ _ _ labels results finals draws =>
       String.eqb (String.concat " " lbls) labels && list_eqb2 opt_res_eqb rs results
       && list_eqb b3_eqb fin finals && (dr =? draws)
-  | CSeq _ _ _ _ _ _ results finals draws =>
+  | CSeq _ _ _ _ _ _ _ results finals draws =>
       list_eqb2 opt_res_eqb rs results && list_eqb b3_eqb fin finals && (dr =? draws)
   end.
 
